@@ -74,6 +74,9 @@ type Sim struct {
 	Hang     bool
 	OverStep bool
 
+	// LockObserver, if set, is told about every lock-hook pass in baton mode (named = by a harness task).
+	LockObserver func(named bool)
+
 	// Invariant, if set, is evaluated at every quiescent point.
 	Invariant func() error
 	InvErr    error
@@ -443,10 +446,15 @@ func (s *Sim) BeforeLock(l *sync.RWMutex, write bool, name string) {
 		return
 	}
 	id := s.taskOfGoroutine()
-	if id == "" {
+	named := id != ""
+	if !named {
 		id = "zz-lock:" + name // a goroutine of the code under test (e.g. a server connection goroutine)
 	}
-	if s.Park(id, "lock:"+name, poll) == Drained {
+	r := s.Park(id, "lock:"+name, poll)
+	if s.LockObserver != nil {
+		s.LockObserver(named)
+	}
+	if r == Drained {
 		// simulation over: goroutines run freely; wait durably (fake-clock sleep) so
 		// that a holder sleeping on a timer can finish.
 		for i := 0; i < 100000; i++ {
